@@ -29,6 +29,12 @@ REJECT = (SyntaxError, ValueError, KeyError)
 LISTED = ["missing_keyword", "missing_variable", "missing_term", "missing_operand", "unknown_name", "unbalanced_paren",
           "bad_weight", "trailing_token"]
 GENERIC = ["delete", "duplicate", "swap", "substitute", "truncate", "insert", "any_prop"]
+
+
+def pick_generic(rng) -> str:
+    # long_chain (one proposition chained 30 .. 2500 times) is rare: beyond ~1000 connectives it runs into known finding F1,
+    # which ends the trace
+    return "long_chain" if rng.random() < 0.02 else rng.choice(GENERIC)
 WORDS = ["if", "then", "is", "and", "or", "with", "not", "very", "any", "somewhat", "(", ")", "0.5", "1", "-1", "nan", "inf", "zzz",
          "i0", "i1", "o0", "o1", "a", "b", "p", "q", "sin", "+", "*", ",", "pi", "~", "!", "^", "max", ":", "rule:", "x", "e", "%"]
 
@@ -147,6 +153,30 @@ def mutate_generic(rng, words: list[str], kind: str, vocabulary: list[str] | Non
                 while b < end and words[b] not in ("and", "or", ")", "then"):
                     b += 1
                 return words[:a] + [rng.choice(variables), "is"] + rng.choice([[], ["not"], ["very"]]) + ["any"] + words[b:]
+    fixed_n = None
+    if kind.startswith("long_chain:"):
+        kind, fixed_n = "long_chain", int(kind.split(":")[1])
+    if kind == "long_chain":
+        # grammatical, but very long: the antecedent chained with itself N times (a machine-generated rule)
+        if len(words) > 2000 or not words or words[0] != "if" or "then" not in words or words.index("then") < 4:
+            return list(words)
+        end = words.index("then")
+        unit = []  # the first proposition of the antecedent: VAR is [hedges] TERM
+        for w in words[1:end]:
+            if w in ("and", "or"):
+                break
+            if w not in ("(", ")"):
+                unit.append(w)
+        if len(unit) < 3:
+            return list(words)
+        n_rep = fixed_n or rng.choice([30, 30, 1100, 2500])
+        conn = rng.choice(["and", "or", None])
+        chain: list[str] = []
+        for j in range(n_rep):
+            if j:
+                chain.append(conn or rng.choice(["and", "or"]))
+            chain += unit
+        return ["if"] + chain + words[end:]
     n = len(words)
     if n == 0:
         return [rng.choice(WORDS)]
@@ -296,18 +326,34 @@ def eval_error_tolerated(rule, blk, ex: BaseException | None = None) -> bool:
     is not usable as configured: empty Discrete, Linear arity, Function with an unknown variable), or if a term it
     mentions computes from engine state. Otherwise an accepted rule must evaluate (the rule machinery itself must
     not choke on what it accepted)."""
+    if isinstance(ex, RecursionError):
+        return False  # (a RuntimeError by inheritance, but C16 names recursion among the internal errors)
     if blk.conjunction is None or blk.disjunction is None:
         return True
     if ex is not None and _site(ex).startswith("term.py:"):
         return True
-
-    def walk(node) -> bool:
+    stack = [rule.antecedent.expression]  # (iterative: the tree of a long rule is as deep as the rule has connectives)
+    while stack:
+        node = stack.pop()
         if node is None:
-            return False
+            continue
         if hasattr(node, "left"):
-            return walk(node.left) or walk(node.right)
-        return isinstance(node.term, (fl.Function, fl.Linear))
-    return walk(rule.antecedent.expression)
+            stack += [node.left, node.right]
+        elif isinstance(node.term, (fl.Function, fl.Linear)):
+            return True
+    return False
+
+
+def eval_violation(oracle: str, i: int, ex: BaseException, **details) -> Violation:
+    """An accepted (loaded) rule that cannot be evaluated. Recursion gets an oracle name of its own, with the site, so that
+    the known finding about the recursive evaluation of very long antecedents matches exactly that and nothing else."""
+    if isinstance(ex, RecursionError):
+        details.pop("text", None)  # (thousands of words)
+        details.pop("message", None)
+        details.pop("site", None)
+        details.pop("exception", None)
+        return Violation("rule_evaluation_hits_the_recursion_limit", i, exception="RecursionError", site=_site(ex), found_by=oracle, **details)
+    return Violation(oracle, i, **details)
 
 
 def classify(e: BaseException) -> str:
@@ -348,7 +394,7 @@ class C16(Sim):
 
     # ---------------------------------------------------------------- generation
     def cases(self, rng, run: int, tier: str) -> Iterator[dict]:
-        sp = S.gen_spec(rng, activations=["General"] if rng.random() < 0.6 else S.ACTIVATIONS, fn_reads_output=False, cascade=False,
+        sp = S.gen_spec(rng, activations=S.GENERAL if rng.random() < 0.6 else S.ACTIVATIONS, fn_reads_output=False, cascade=False,
                         disabled=0.04, mixed_types=0.0, user_terms=["InputGain"])  # (rows are always processed one at a time here)
         if rng.random() < 0.12:
             sp = S.example_spec(rng, allow_fn_reads_output=True, randomise_cascade=False) or sp
@@ -365,7 +411,7 @@ class C16(Sim):
                 if rng.random() < 0.55:
                     mut = {"listed": rng.choice(LISTED), "seed": rng.randrange(1 << 30)}
                 else:
-                    mut = {"generic": rng.choice(GENERIC), "seed": rng.randrange(1 << 30), "times": rng.choice([1, 1, 2, 3])}
+                    mut = {"generic": pick_generic(rng), "seed": rng.randrange(1 << 30), "times": rng.choice([1, 1, 2, 3])}
                 ops.append({"op": "corrupt_rule", "b": bi, "r": ri, "mut": mut})
                 rr = rng.random()
                 if rr < 0.3:
@@ -377,7 +423,7 @@ class C16(Sim):
                 if rng.random() < 0.6:
                     mut = {"listed": rng.choice(LISTED), "seed": rng.randrange(1 << 30)}
                 else:
-                    mut = {"generic": rng.choice(GENERIC), "seed": rng.randrange(1 << 30), "times": rng.choice([1, 1, 2])}
+                    mut = {"generic": pick_generic(rng), "seed": rng.randrange(1 << 30), "times": rng.choice([1, 1, 2])}
                 ops.append({"op": "fresh_rule", "b": bi, "r": ri, "mut": mut, "via": rng.choice(["create", "importer", "importer_block", "create", "importer", "importer_block", "create_empty", "importer_block_empty"])})
             elif r < 0.44:
                 ops.append({"op": "rename_check", "b": bi, "r": ri, "pick": rng.randrange(8)})
@@ -405,6 +451,9 @@ class C16(Sim):
                         ops.append({"op": "corrupt_store", "c": {"kind": kind, "pos": rng.randrange(256), "wpos": rng.randrange(16),
                                                                  "cpos": rng.randrange(8), "byte": rng.choice([0, 9, 10, 13, 32, 35, 58, 127, 128, 192, 237, 255, rng.randrange(256)]), "word": rng.choice(WORDS + ["true", "false", "none", "Centroid", "General", "Triangle", "term:", "range:", "Engine:", "RuleBlock:", "OutputVariable:", "200", "Minimum", "Automatic", "First", "Highest", "Threshold", "Proportional", ">=", "2", "0.000"])}})
                 ops.append({"op": "import_store"})
+        if run == 0:
+            # a fixed probe per seed: one rule whose first proposition is chained 1100 times
+            ops.insert(1, {"op": "corrupt_rule", "b": 0, "r": 0, "mut": {"generic": "long_chain:1100", "seed": 3, "times": 1}})
         tr = {"arm": "clean", "config": sp, "ops": ops}
         if rng.random() < 0.03:
             tr["debugging"] = True  # the library's debug mode (settings.debugging): extra code paths in the parsers
@@ -496,8 +545,8 @@ class C16(Sim):
                         words = orig_text[(bi, ri)].split()
                         for _ in range(mut.get("times", 1)):
                             words = mutate_generic(mr, words, mut["generic"], vocab, var_names)
-                        mclass = "G:" + mut["generic"]
-                        st.hit("faults.rule_generic_" + mut["generic"])
+                        mclass = "G:" + mut["generic"].split(":")[0]
+                        st.hit("faults.rule_generic_" + mut["generic"].split(":")[0])
                     text = " ".join(words)
                 was_loaded = rule.is_loaded()
                 before = rule_snap(rule)
@@ -558,9 +607,9 @@ class C16(Sim):
                                 if eval_error_tolerated(rule, blk, ex):
                                     st.hit("outcomes.accepted_rule_needs_missing_operator")
                                 else:
-                                    v = Violation("accepted_rule_cannot_be_evaluated", i, text=text, exception=type(ex).__name__, message=str(ex)[:120])
+                                    v = eval_violation("accepted_rule_cannot_be_evaluated", i, ex, text=text, exception=type(ex).__name__, message=str(ex)[:120])
                             except Exception as ex:
-                                v = Violation("accepted_rule_cannot_be_evaluated", i, text=text, exception=type(ex).__name__, message=str(ex)[:120])
+                                v = eval_violation("accepted_rule_cannot_be_evaluated", i, ex, text=text, exception=type(ex).__name__, message=str(ex)[:120])
                 if v is None and all_rule_snaps(skip=(bi, ri)) != others:
                     v = Violation("loading_one_rule_changed_another", i, text=text)
             elif k == "rename_check":
@@ -638,7 +687,7 @@ class C16(Sim):
                     words = orig_text[(bi, ri)].split()
                     for _ in range(mut.get("times", 1)):
                         words = mutate_generic(mr, words, mut["generic"], vocab, var_names)
-                    st.hit("faults.fresh_generic_" + mut["generic"])
+                    st.hit("faults.fresh_generic_" + mut["generic"].split(":")[0])
                 text = " ".join(words)
                 others = all_rule_snaps()
                 exc = None
@@ -682,10 +731,10 @@ class C16(Sim):
                                 r2.activate_with(E.rule_blocks[bi].conjunction, E.rule_blocks[bi].disjunction)
                             except (ValueError, RuntimeError) as ex:
                                 if not eval_error_tolerated(r2, E.rule_blocks[bi], ex):
-                                    v = Violation("accepted_rule_cannot_be_evaluated", i, text=text, exception=type(ex).__name__, via=op["via"])
+                                    v = eval_violation("accepted_rule_cannot_be_evaluated", i, ex, text=text, exception=type(ex).__name__, via=op["via"])
                                     break
                             except Exception as ex:
-                                v = Violation("accepted_rule_cannot_be_evaluated", i, text=text, exception=type(ex).__name__, via=op["via"])
+                                v = eval_violation("accepted_rule_cannot_be_evaluated", i, ex, text=text, exception=type(ex).__name__, via=op["via"])
                                 break
                 if v is None and all_rule_snaps() != others:
                     v = Violation("loading_one_rule_changed_another", i, text=text, via=op["via"])
@@ -750,11 +799,11 @@ class C16(Sim):
                             if eval_error_tolerated(r2, b2, ex):
                                 st.hit("outcomes.loaded_rule_needs_missing_operator")
                             else:
-                                v = Violation("loaded_rule_cannot_be_evaluated", i, text=r2.text, exception=type(ex).__name__,
+                                v = eval_violation("loaded_rule_cannot_be_evaluated", i, ex, text=r2.text, exception=type(ex).__name__,
                                               message=str(ex)[:120], site=_site(ex))
                                 break
                         except Exception as ex:
-                            v = Violation("loaded_rule_cannot_be_evaluated", i, text=r2.text, exception=type(ex).__name__,
+                            v = eval_violation("loaded_rule_cannot_be_evaluated", i, ex, text=r2.text, exception=type(ex).__name__,
                                           message=str(ex)[:120], site=_site(ex))
                             break
                     if v:
@@ -885,11 +934,11 @@ class C16(Sim):
                                         if eval_error_tolerated(r2, b2, ex):
                                             st.hit("outcomes.imported_rule_needs_missing_operator")
                                         else:
-                                            v = Violation("imported_rule_cannot_be_evaluated", i, text=r2.text, exception=type(ex).__name__,
+                                            v = eval_violation("imported_rule_cannot_be_evaluated", i, ex, text=r2.text, exception=type(ex).__name__,
                                                           message=str(ex)[:160], site=_site(ex))
                                             break
                                     except Exception as ex:
-                                        v = Violation("imported_rule_cannot_be_evaluated", i, text=r2.text, exception=type(ex).__name__,
+                                        v = eval_violation("imported_rule_cannot_be_evaluated", i, ex, text=r2.text, exception=type(ex).__name__,
                                                       message=str(ex)[:160], site=_site(ex))
                                         break
                                 if v:
